@@ -437,6 +437,13 @@ structure FieldSp where
   dflt : DefaultSp := .none
   /-- the name is listed in the class's `_optional` -/
   inOptional : Bool := false
+  /-- the annotation is written as a string literal: `a: "Integer"` -/
+  quoted : Bool := false
+  /-- (only meaningful in `Scope.enclosing`) the annotation text mentions a name that is a local of the
+      enclosing function and that the function containing the class statement does not capture (no evaluated
+      expression of that function uses it): a Python-level fact, supplied by the harness from the compiled
+      code object (`co_freevars`) -/
+  unresolved : Bool := false
 deriving Repr, Inhabited
 
 inductive FieldRes where
@@ -581,16 +588,39 @@ def elabField (O : Oracles) (tm : TypeMap) (_future : Bool) (fs : FieldSp) : R F
   | .ann => bindE (evTop O tm fs) fun o => annField O tm fs o
   | .assign => bindE (evTop O tm fs) fun o => assignField tm fs o
 
+/-- where the class statement stands relative to the type names its annotations use:
+    at module level; inside a function that also defines the names (`function`); the same one function
+    deeper (`nested`); or inside a function while the names are locals of an ENCLOSING function -/
+inductive Scope where | module | function | nested | enclosing
+deriving Repr, DecidableEq, Inhabited
+
+/-- the annotation reaches `StructMeta.__new__` as a string (future import, or written quoted) -/
+def stringAnn (future : Bool) (fs : FieldSp) : Bool := fs.mode == .ann && (future || fs.quoted)
+
+/-- One field of a class statement in scope `sc`.  A string annotation is evaluated by
+    `_evaluate_if_future_annotations` with the module globals and the locals of the frame executing the
+    class statement: names of the module, and of the function that directly contains the class, resolve;
+    locals of an enclosing function only if that function's code captures them (otherwise NameError, PEP 563).
+    A quoted annotation under the future import is stored as the text of a string literal, evaluates to a
+    `str` again and declares nothing; without the import a string of 50 or more characters is not evaluated
+    at all. -/
+def elabFieldAt (sc : Scope) (O : Oracles) (tm : TypeMap) (future : Bool) (fs : FieldSp) : R FieldRes :=
+  if fs.mode == .ann && fs.quoted && (future || decide (50 ≤ annLenField fs)) then .ok .dropped
+  else if stringAnn future fs && sc == .enclosing && fs.unresolved then .error (.other "NameError")
+  else elabField O tm future fs
+
 structure ClassSp where
   future : Bool
   fields : List FieldSp
+  scope : Scope := .module
 deriving Repr, Inhabited
 
-def elabFields (O : Oracles) (tm : TypeMap) (future : Bool) : List FieldSp → R (List (String × FieldRes))
+def elabFields (O : Oracles) (tm : TypeMap) (sc : Scope) (future : Bool) :
+    List FieldSp → R (List (String × FieldRes))
   | [] => .ok []
   | fs :: rest =>
-    bindE (elabField O tm future fs) fun r =>
-    bindE (elabFields O tm future rest) fun rs => .ok ((fs.name, r) :: rs)
+    bindE (elabFieldAt sc O tm future fs) fun r =>
+    bindE (elabFields O tm sc future rest) fun rs => .ok ((fs.name, r) :: rs)
 
 def fieldsOf : List (String × FieldRes) → List (String × FieldDecl)
   | [] => []
@@ -613,6 +643,6 @@ def classOf (rs : List (String × FieldRes)) : FieldDecl :=
 
 /-- the class statement: the class declaration it creates, or the exception class it raises -/
 def elabClass (O : Oracles) (tm : TypeMap) (c : ClassSp) : R FieldDecl :=
-  bindE (elabFields O tm c.future c.fields) fun rs => .ok (classOf rs)
+  bindE (elabFields O tm c.scope c.future c.fields) fun rs => .ok (classOf rs)
 
 end Typedpy.Elab
